@@ -67,7 +67,11 @@ BaseClasses == {"none", "plain", "eq", "hash", "digits", "exo"}
 (* tagline), 'MaxTime = ..' (pmax), 'Err_Tolerance = ..' (ptol)                                 *)
 TagClasses == {"exoU", "exoM", "tagline", "pmax", "ptol"}
 MarkerWordClasses == {"exo", "exoU", "exoM", "tagline"}     \* the lower-cased text contains 'exogenous'
-CommentClasses == BaseClasses \cup SepClasses \cup TagClasses
+(* end*: the free text ENDS in characters that mean "the line goes on" to a line joiner: a     *)
+(* backslash (endbs), an operator / comma / open bracket (endop), an ellipsis '...', '&', '_',   *)
+(* '^' (enddots).  What matters is the line that FOLLOWS such a comment: it is a line of its own.*)
+EndClasses == {"endbs", "endop", "enddots"}
+CommentClasses == BaseClasses \cup SepClasses \cup TagClasses \cup EndClasses
 Spacings == {"tight", "one", "wide"}
 
 OneEq     == {"eq", "lag1", "lag2", "lag3", "ic", "maxtime", "errtol", "usert"}   \* well-formed
